@@ -402,6 +402,31 @@ impl DcpsDomainParticipant {
         participant_handle: &InstanceHandle,
         name: String,
     ) -> DdsResult<()> {
+        let Some(index) = self
+            .domain_participant
+            .content_filtered_topic_list
+            .iter()
+            .position(|x| x.topic_name == name)
+        else {
+            return Err(DdsError::AlreadyDeleted);
+        };
+
+        if self
+            .domain_participant
+            .user_defined_subscriber_list
+            .iter()
+            .flat_map(|s| s.data_reader_list.iter())
+            .any(|r| r.topic_name == name)
+        {
+            return Err(DdsError::PreconditionNotMet(
+                "Content filtered topic still attached to some data reader".to_string(),
+            ));
+        }
+
+        self.domain_participant
+            .content_filtered_topic_list
+            .remove(index);
+
         Ok(())
     }
 
@@ -523,6 +548,7 @@ impl DcpsDomainParticipant {
             }
         }
 
+        self.domain_participant.content_filtered_topic_list.clear();
         self.domain_participant
             .locally_created_topic_list
             .retain(|x| BUILT_IN_TOPIC_NAME_LIST.contains(&x.topic_name.as_str()));
